@@ -50,6 +50,7 @@ var (
 	bWGWait    = []byte("sync.(*WaitGroup).Wait")
 	bPark      = []byte("simcore.parkOnGate")
 	bSigLoop   = []byte("os/signal.loop")
+	bEnvDrain  = []byte("main.envDrain") // harness goroutine that plays the reader of a pipe; part of the environment
 	bSemacq    = "semacquire"
 )
 
@@ -103,8 +104,8 @@ func (s *Sim) takeSnapshot(detail bool) Snapshot {
 				state = state[:c]
 			}
 		}
-		if bytes.Contains(blk, bSigLoop) {
-			continue // runtime-owned signal goroutine: not part of the system
+		if bytes.Contains(blk, bSigLoop) || bytes.Contains(blk, bEnvDrain) {
+			continue // runtime-owned signal goroutine / environment: not part of the system
 		}
 		snap.N++
 		stable := stableStates[state]
